@@ -287,7 +287,28 @@ def extract(fn: ast.FunctionDef) -> Kernel:
     rets = [n for n in fn.body if isinstance(n, ast.Return)]
     if len(rets) != 1:
         raise Unsupported(fn, 'single return expected')
-    k.ret = parse_return(rets[0].value, partials, weights, post, freqs, props)
+    # locals introduced between the loop and the return (`root_partials = partials[…]`, `log_scalers = …`) are substituted, in statement order
+    import copy
+    env = {}
+
+    class _Sub(ast.NodeTransformer):
+        def visit_Name(self, n):
+            if isinstance(n.ctx, ast.Load) and n.id in env:
+                return copy.deepcopy(env[n.id])
+            return n
+    after_loop = False
+    for st in fn.body:
+        if isinstance(st, ast.For):
+            after_loop = True
+        elif after_loop and isinstance(st, ast.Assign) and len(st.targets) == 1 and isinstance(st.targets[0], ast.Name) \
+                and st.targets[0].id not in (partials, weights, post, freqs, props):
+            env[st.targets[0].id] = _Sub().visit(copy.deepcopy(st.value))
+    ret_expr = _Sub().visit(copy.deepcopy(rets[0].value)) if env else rets[0].value
+    ast.copy_location(ret_expr, rets[0].value)
+    for n in ast.walk(ret_expr):
+        if not hasattr(n, 'lineno'):
+            n.lineno, n.col_offset = rets[0].lineno, rets[0].col_offset
+    k.ret = parse_return(ret_expr, partials, weights, post, freqs, props)
     return k
 
 
